@@ -161,25 +161,19 @@ def seriesOffset (T : MassTable) (mono : Bool) (t : Key) : Option Rat :=
   else if t = k "z" then some (- m fNH3)
   else none
 
-/-- neutral offset of an ion type from the bare residue sum (no charge carrier) -/
-def neutralOffset (T : MassTable) (mono : Bool) (t : Key) : Option Rat :=
+/-- neutral offsets of the 18 ion types from the bare residue sum (no charge carrier), as a table:
+precursor = H2O, `n` = nothing, forward series = their offset from b, backward series = H2O + their offset from y,
+immonium = −CO, internal `fb` = offset of `f` + offset of `b` -/
+def offsetTable (T : MassTable) (mono : Bool) : List (Key × Rat) :=
   let m := T.compMass mono
-  let bytes := keyBytes t
-  if t = k "p" then some (m fH2O)
-  else if t = k "n" then some 0
-  else if t = k "i" then some (- m fCO)
-  else match bytes with
-    | [_] =>
-      if t = k "a" || t = k "b" || t = k "c" then seriesOffset T mono t
-      else (seriesOffset T mono t).map (· + m fH2O)
-    | [f, b] =>
-      -- internal ion: the forward offset of its first letter plus the backward offset of its second
-      if (f = 97 || f = 98 || f = 99) && (b = 120 || b = 121 || b = 122) then
-        match seriesOffset T mono f, seriesOffset T mono b with
-        | some x, some y => some (x + y)
-        | _, _ => none
-      else none
-    | _ => none
+  let ser (t : Key) : Rat := (seriesOffset T mono t).getD 0
+  [(k "p", m fH2O), (k "n", 0), (k "i", - m fCO)] ++
+  [k "a", k "b", k "c"].map (fun t => (t, ser t)) ++
+  [k "x", k "y", k "z"].map (fun t => (t, ser t + m fH2O)) ++
+  [k "a", k "b", k "c"].flatMap (fun f => [k "x", k "y", k "z"].map (fun b => (f * 256 + b, ser f + ser b)))
+
+/-- neutral offset of an ion type from the bare residue sum; `none` = not an ion type -/
+def neutralOffset (T : MassTable) (mono : Bool) (t : Key) : Option Rat := lookup t (offsetTable T mono)
 
 /-- offset of the singly charged ion of type `t` from the bare residue sum: backbone offset + the charge carrier
 (`n` is the bare, uncharged residue sum) -/
